@@ -35,6 +35,7 @@ type DupCase struct {
 	SameValue bool     `json:"same_value"`
 	Value     []byte   `json:"value,omitempty"` // value of the duplicate when !SameValue
 	CaseOpt   bool     `json:"case_opt"`        // MatchCaseInsensitiveNames(true)
+	Pre       []byte   `json:"pre,omitempty"`   // optional text unmarshaled into the target first (pre-populated target)
 }
 
 func genDup(t *rapid.T) DupCase {
@@ -59,6 +60,9 @@ func genDup(t *rapid.T) DupCase {
 		c.Value = []byte(rapid.SampledFrom([]string{"null", "0", "1", `"s"`, `""`, "true", "[]", "[1]", "{}", `{"a":1}`, `{"P":2}`, `"AQ=="`}).Draw(t, "value"))
 	}
 	c.CaseOpt = rapid.IntRange(0, 3).Draw(t, "caseopt") == 0
+	if rapid.IntRange(0, 2).Draw(t, "prepopulate") == 0 {
+		c.Pre = tv.GenJSON(t, c.Desc, tv.JSONCfg{PresentPc: 70})
+	}
 	return c
 }
 
@@ -434,6 +438,21 @@ func RunDup(c DupCase) error {
 	}
 	if errors.Is(e1, jsontext.ErrDuplicateName) {
 		rec.Class("err-is-ErrDuplicateName")
+	}
+
+	// 1b. the same into a pre-populated target (maps and structs already hold entries)
+	if c.Pre != nil {
+		vp := reflect.New(typ)
+		if err := json.Unmarshal(c.Pre, vp.Interface(), c.opts()...); err == nil {
+			rec.Class("pre-populated-target")
+			var ep error
+			if p := rt.Guard(func() { ep = json.Unmarshal(b.text, vp.Interface(), c.opts()...) }); p != nil {
+				return fmt.Errorf("Unmarshal into a pre-populated target panicked: %v\ntext %s\ntype %s", p, b.text, sig)
+			}
+			if ep == nil {
+				return fmt.Errorf("duplicate member accepted under default options when the target was pre-populated (target %s, %s)\npre  %s\ntext %s\ntype %s", b.kind, b.why, c.Pre, b.text, sig)
+			}
+		}
 	}
 
 	// 2. AllowDuplicateNames(true)
